@@ -31,6 +31,8 @@ META = {
 
 META['explanation'] += ' ' + 'R8: no function on the parse side reaches itself through calls. R9: evaluation steps of the string array parser grow by equal amounts for equal growth of the input (items, separator runs, blank runs).'
 
+META['explanation'] += ' ' + 'R10: no function changes a container bound at module level. R11: a buffer that is parsed inside a loop and re-bound there is re-bound to a suffix of itself.'
+
 
 def contained_classes(ctx, c):
     """classes whose parser can be entered while parsing c (one level)"""
